@@ -35,7 +35,8 @@ UNIQUE_CANDIDATES = [Exit, Beacon, Wall, Telepod, Door]
 
 
 def rfloat(rng):
-    return round(rng.uniform(-5, 5), 3)
+    # zero now and then: falsy parameter values must reach the components like any other
+    return 0.0 if rng.random() < 0.08 else round(rng.uniform(-5, 5), 3)
 
 
 class Composition:
